@@ -7,6 +7,7 @@ package main
 import (
 	"fmt"
 	"go/ast"
+	"go/token"
 	"go/types"
 	"strings"
 	"text/template/parse"
@@ -118,6 +119,7 @@ func checkC19(c *Ctx, r *Report) {
 	}
 	r.OK("C19.a", "WHO-MAY-CALL", "repo/file-creating-call-sites", "-", fmt.Sprintf("%d functions contain file-creating calls: the generator entry points and Graph.SaveGraph only", len(perFunc)))
 
+	c19ErrorsAbort(c, r)
 	st := c.GetStaged()
 	stagedErrors(r, "C19", st)
 	for _, e := range entries {
@@ -137,51 +139,7 @@ func checkC19(c *Ctx, r *Report) {
 		// template data is inert: every {{.X}} names a FIELD of the builder (filled before the file is created);
 		// a method would run builder code — with all its panics — inside Execute, after os.Create truncated the file
 		{
-			var refs []string
-			var walk func(n parse.Node)
-			walk = func(n parse.Node) {
-				switch x := n.(type) {
-				case *parse.ListNode:
-					if x != nil {
-						for _, m := range x.Nodes {
-							walk(m)
-						}
-					}
-				case *parse.ActionNode:
-					walk(x.Pipe)
-				case *parse.PipeNode:
-					if x != nil {
-						for _, cmd := range x.Cmds {
-							for _, a := range cmd.Args {
-								walk(a)
-							}
-						}
-					}
-				case *parse.FieldNode:
-					if len(x.Ident) > 0 {
-						refs = append(refs, x.Ident[0])
-					}
-				case *parse.ChainNode:
-					walk(x.Node)
-				case *parse.IfNode:
-					walk(x.Pipe)
-					walk(x.List)
-					walk(x.ElseList)
-				case *parse.RangeNode:
-					walk(x.Pipe)
-					walk(x.List)
-					walk(x.ElseList)
-				case *parse.WithNode:
-					walk(x.Pipe)
-					walk(x.List)
-					walk(x.ElseList)
-				case *parse.IdentifierNode:
-					refs = append(refs, "func "+x.Ident)
-				case *parse.TemplateNode:
-					walk(x.Pipe)
-				}
-			}
-			walk(sc.Tree.Root)
+			refs := templateRefs(sc.Tree)
 			bad := ""
 			for _, ref := range refs {
 				if strings.HasPrefix(ref, "func ") {
@@ -214,6 +172,101 @@ func checkC19(c *Ctx, r *Report) {
 	if st.TS != nil && len(st.TS.Order) > 0 {
 		r.Check(st.TS.Order[len(st.TS.Order)-1] == "CodeLast", "C19.c", "R2 ORDER", "Builder.TsGenFromString/last-write-is-epilogue", "Builder/TsGenCode.go",
 			"the last WriteString is b.CodeLast", "the last WriteString is b."+st.TS.Order[len(st.TS.Order)-1]+", not the epilogue")
+	}
+}
+
+// c19ErrorsAbort — a generation that failed must not look like one that succeeded: the error of each step that can
+// fail for reasons inside yaccgo (reading the grammar, creating the file, parsing and executing the template) is
+// bound to a variable that the very next test compares with nil, and the non-nil branch leaves the function (return
+// of an error / panic). I/O errors of the individual writes are outside the rule (and outside the property).
+func c19ErrorsAbort(c *Ctx, r *Report) {
+	watched := map[string]bool{
+		"Parser.ParseAndBuild":              true,
+		"os.Create":                         true,
+		"(*text/template.Template).Parse":   true,
+		"(*text/template.Template).Execute": true,
+		"(*html/template.Template).Parse":   true,
+		"(*html/template.Template).Execute": true,
+		"text/template.Must":                false,
+	}
+	n := 0
+	for _, f := range c.AllFuncs() {
+		if !strings.HasPrefix(f.Name, "Builder.") {
+			continue
+		}
+		info := f.Pkg.TypesInfo
+		pm := parentMap(f.Decl.Body)
+		ast.Inspect(f.Decl.Body, func(nd ast.Node) bool {
+			call, ok := nd.(*ast.CallExpr)
+			if !ok {
+				return true
+			}
+			fn := callee(info, call)
+			if fn == nil {
+				return true
+			}
+			name := shortFuncName(fn)
+			if !watched[name] && !watched[fn.FullName()] {
+				return true
+			}
+			n++
+			key := f.Name + "/error-of-" + fn.Name() + "-aborts"
+			// the statement holding the call
+			var st ast.Stmt
+			for cur := ast.Node(call); cur != nil; cur = pm[cur] {
+				if s, ok := cur.(ast.Stmt); ok {
+					st = s
+					break
+				}
+			}
+			as, ok := st.(*ast.AssignStmt)
+			if !ok || len(as.Rhs) != 1 || unparen(as.Rhs[0]) != ast.Expr(call) {
+				r.Fail("C19.c", "ERROR-DISCIPLINE", key, c.pos(call.Pos()), "the error result of "+name+" is not bound to a variable: a failed step goes unnoticed and generation reports success")
+				return true
+			}
+			errObj := identObj(info, as.Lhs[len(as.Lhs)-1])
+			if errObj == nil {
+				r.Fail("C19.c", "ERROR-DISCIPLINE", key, c.pos(call.Pos()), "the error result of "+name+" is discarded (assigned to _)")
+				return true
+			}
+			// the test: `if <init with this assign>; err != nil {exit}` or the statement right after the assignment
+			var test *ast.IfStmt
+			if is, ok := pm[as].(*ast.IfStmt); ok && is.Init == ast.Stmt(as) {
+				test = is
+			} else if blk, ok := pm[as].(*ast.BlockStmt); ok {
+				for i, s2 := range blk.List {
+					if s2 == ast.Stmt(as) && i+1 < len(blk.List) {
+						test, _ = blk.List[i+1].(*ast.IfStmt)
+					}
+				}
+			}
+			okTest := false
+			if test != nil {
+				if be, ok := unparen(test.Cond).(*ast.BinaryExpr); ok && be.Op == token.NEQ && identObj(info, be.X) == errObj {
+					if id, ok := unparen(be.Y).(*ast.Ident); ok && id.Name == "nil" && endsInExit(test.Body) {
+						// the exit must be a panic or a return of a non-nil error
+						last := test.Body.List[len(test.Body.List)-1]
+						switch x := last.(type) {
+						case *ast.ReturnStmt:
+							if len(x.Results) > 0 {
+								if id, ok := unparen(x.Results[len(x.Results)-1]).(*ast.Ident); !ok || id.Name != "nil" {
+									okTest = true
+								}
+							}
+						case *ast.ExprStmt:
+							okTest = true // panic (endsInExit)
+						}
+					}
+				}
+			}
+			r.Check(okTest, "C19.c", "ERROR-DISCIPLINE", key, c.pos(call.Pos()),
+				"the error is tested right after the call and a non-nil error leaves with a panic / a returned error",
+				"the error of "+name+" is not followed by `if err != nil { return <error> | panic }`: a failed step goes unnoticed and generation reports success")
+			return true
+		})
+	}
+	if n < 5 {
+		r.Undecided("C19.c", "ERROR-DISCIPLINE", "Builder/fallible-steps", "Builder", fmt.Sprintf("only %d calls of the fallible steps were found (expected ParseAndBuild ×2, os.Create ×2, template Parse, Execute)", n))
 	}
 }
 
